@@ -108,6 +108,7 @@ def run(ctx):
     ck.rule("R05c", "counters / pre-eval code only accounts and calls the callbacks; ungated code is identical to the default build")
     ck.rule("R05d", "PRECOMPUTED_HASHES[n] == sha256(1 || minimal(n)); indexed under val < len")
     ck.rule("R05e", "the no-fastpath build differs from the default build only on cfg-gated lines")
+    ck.rule("R05f", "flag-guarded rejection thresholds are the same multiset in the default and the no-fastpath build of every function")
     ck.assume("arithmetic equality of u64/i64 fast sums with bignum sums is not decided")
     ctx.prefetch(["default", "nofast", "diag"])
     cr = ctx.crate("default")
@@ -333,3 +334,43 @@ def run(ctx):
                     ck.ob("R05c", f"{p}|gated store {'.'.join(flds)}", ok, "diagnostic code writes only counter fields", site=g.where(b, st["ln"]),
                           detail=show(g.expr_place(d, deep=False)))
     ck.floor("gated diagnostic calls/stores examined", n_gated, 10)
+
+
+    # ---- R05f: thresholds tested under a restriction flag (LIMITS, DISABLE_OP, ...) must not differ between the two
+    # copies of an operator body (the cfg-gated fast path and its no-fastpath replacement)
+    from lib.flagregion import flag_tests as _ftests
+    from rules.c07 import forward_reach as _freach, RESTRICT
+    from rules.c07 import is_test_fn as _is_test
+    from lib.mir import compare_norm as _cnorm
+
+    def thresholds(f):
+        out = []
+        for t in _ftests(f):
+            if t["flag"] not in RESTRICT:
+                continue
+            region = _freach(f, t["set_edge"]) - _freach(f, t["clear_edge"])
+            for b in sorted(region | {t["set_edge"]}):
+                if f.term(b)["k"] != "switch":
+                    continue
+                n = _cnorm(f.switch_cond(b))
+                if not n or not n[0]:
+                    continue
+                shape = " ".join(("+" if c > 0 else "-") + (str(abs(c)) if abs(c) != 1 else "") + "x" for _, c in sorted(n[0].items(), key=lambda kv: kv[1]))
+                out.append(f"{t['flag']}: {shape} {n[1]:+d} {n[2]}")
+        return sorted(out)
+    n_thr = 0
+    for path in sorted(set(cr.fns) & set(nf.fns)):
+        f1, f2 = cr.fns[path], nf.fns[path]
+        if _is_test(f1):
+            continue
+        try:
+            t1, t2 = thresholds(f1), thresholds(f2)
+        except Exception:
+            continue
+        if not t1 and not t2:
+            continue
+        n_thr += 1
+        # the no-fastpath body may drop a whole fast path (fewer tests) but each distinct threshold must exist in both
+        ck.ob("R05f", path, set(t1) == set(t2), "the thresholds tested under restriction flags are the same in both builds",
+              site=f1.where(0), detail={"default": t1, "no-fastpath": t2} if set(t1) != set(t2) else sorted(set(t1)))
+    ck.floor("functions with flag-guarded thresholds", n_thr, 10)
